@@ -5,8 +5,10 @@
   Helper lemmas: Proofs/ReplaceValid.lean, Proofs/StepValid.lean.
 -/
 import PM.Step
+import PM.StepWF
 import Proofs.ReplaceValid
 import Proofs.StepValid
+import Proofs.NoInternal
 namespace PM.C01
 open PM
 
@@ -181,5 +183,252 @@ theorem slice_payload_valid (S : Schema) (src : Node) (f t : Nat) (sl : Slice)
     (hs : Valid S src) (h : src.slice f t = .ok sl) :
     openValid S sl.openStart sl.openEnd sl.content = true := by
   exact slice_openValid S src f t sl hs h
+
+/-! ## "… and never dies with an internal error" (second sentence of C01)
+
+  `Err.internal` is the model's outcome for IndexError / AttributeError / AssertionError / TypeError.
+  `StepWF` (PM/StepWF.lean) is the decidable payload condition: `Slice.wf` for the two replace kinds,
+  plus `insert ≤ slice.size` for replace-around; nothing for the other six kinds.  No hypothesis on
+  positions (range, order, pair alignment), on validity or normal form of the document or of the
+  payload is needed: the statements hold for arbitrary payloads.
+
+  Limit of the model (reported, not hidden): `replaceKids` and `sliceKids` answer `to < from` with
+  `.valueError`; the code has no such check.  There `Node.slice` returns an empty slice with the open
+  depths of the two positions, and e.g. `AddMarkStep(1, 0, em).apply(doc(p("ab")))` dies with
+  `IndexError` (`replace_two_way` → `joinable` → `ResolvedPos.node`).  So about the *code* these
+  theorems speak for ordered positions (`StepOrdered`) only. -/
+
+/-- the document is an element node (`Node.replace` on a text node is a TypeError in the code) -/
+def IsElem (doc : Node) : Prop := doc.isLeaf = false
+
+instance (doc : Node) : Decidable (IsElem doc) := by unfold IsElem; infer_instance
+
+theorem fromReplace_no_internal (S : Schema) (doc : Node) (f t : Nat) (sl : Slice)
+    (hdoc : IsElem doc) (hwf : sl.wf = true) : S.fromReplace doc f t sl ≠ .error .internal :=
+  replace_no_internal S doc f t sl hdoc hwf
+
+/-- **replace step** -/
+theorem replace_no_internal (S : Schema) (doc : Node) (f t : Nat) (sl : Slice) (st : Bool)
+    (hdoc : IsElem doc) (hwf : StepWF (.replace f t sl st) = true) :
+    S.apply (.replace f t sl st) doc ≠ .error .internal := by
+  simp only [StepWF] at hwf
+  have key := fromReplace_no_internal S doc f t sl hdoc hwf
+  unfold Schema.apply
+  simp only
+  split
+  · split
+    · simp
+    · simp
+    · exact key
+  · exact key
+
+/-- **replace-around step** -/
+theorem replaceAround_no_internal (S : Schema) (doc : Node) (f t gf gt : Nat) (sl : Slice)
+    (ins : Nat) (st : Bool) (hdoc : IsElem doc)
+    (hwf : StepWF (.replaceAround f t gf gt sl ins st) = true) :
+    S.apply (.replaceAround f t gf gt sl ins st) doc ≠ .error .internal := by
+  simp only [StepWF, Bool.and_eq_true, decide_eq_true_eq] at hwf
+  intro h
+  unfold Schema.apply at h
+  simp only at h
+  split at h
+  · rename_i e he
+    simp at h; subst h
+    split at he
+    · split at he
+      · simp at he
+      · simp at he
+      · split at he <;> simp at he
+    · simp at he
+  · split at h
+    · rename_i e he
+      simp at h; subst h
+      exact sliceKids_no_internal doc.kids gf gt he
+    · rename_i gap hgap
+      split at h
+      · simp at h
+      · split at h
+        · rename_i e he
+          simp at h; subst h
+          exact insertAt_no_internal S sl ins gap.content he
+        · simp at h
+        · rename_i inserted hins
+          exact fromReplace_no_internal S doc f t inserted hdoc
+            (insertAt_wf S sl inserted ins gap.content hwf.1 hwf.2 hins) h
+
+/-- **mark steps**: the slice cut from the document is well-formed and re-marking keeps its spines -/
+theorem addMark_no_internal (S : Schema) (doc : Node) (f t : Nat) (m : Mark) (hdoc : IsElem doc) :
+    S.apply (.addMark f t m) doc ≠ .error .internal := by
+  intro h
+  unfold Schema.apply at h
+  simp only at h
+  split at h
+  · rename_i e he
+    simp at h; subst h
+    exact sliceKids_no_internal doc.kids f t he
+  · rename_i old hold
+    split at h
+    · simp at h
+    · rename_i p _
+      exact fromReplace_no_internal S doc f t _ hdoc
+        (addMark_slice_wf S m p old (sliceKids_wf doc.kids f t old hold)) h
+
+theorem removeMark_no_internal (S : Schema) (doc : Node) (f t : Nat) (m : Mark) (hdoc : IsElem doc) :
+    S.apply (.removeMark f t m) doc ≠ .error .internal := by
+  intro h
+  unfold Schema.apply at h
+  simp only at h
+  split at h
+  · rename_i e he
+    simp at h; subst h
+    exact sliceKids_no_internal doc.kids f t he
+  · rename_i old hold
+    exact fromReplace_no_internal S doc f t _ hdoc
+      (removeMark_slice_wf S m old (sliceKids_wf doc.kids f t old hold)) h
+
+theorem markSteps_no_internal (S : Schema) (doc : Node) (f t : Nat) (m : Mark) (hdoc : IsElem doc) :
+    S.apply (.addMark f t m) doc ≠ .error .internal ∧ S.apply (.removeMark f t m) doc ≠ .error .internal :=
+  ⟨addMark_no_internal S doc f t m hdoc, removeMark_no_internal S doc f t m hdoc⟩
+
+/-- the shared shape of the three node-level steps -/
+private theorem nodeStep_no_internal (S : Schema) (doc : Node) (pos : Nat) (hdoc : IsElem doc)
+    (attrsOf : Node → Attrs) (marksOf : Node → Marks) :
+    (match doc.nodeAt pos with
+      | .error e => (.error e : Res Node)
+      | .ok none => .error .failed
+      | .ok (some n) =>
+        match S.recreate n (attrsOf n) (marksOf n) with
+        | .error e => .error e
+        | .ok u => S.fromReplace doc pos (pos + 1) ⟨[u], 0, if n.isLeaf then 0 else 1⟩)
+      ≠ .error .internal := by
+  intro h
+  split at h
+  · rename_i e he
+    simp at h; subst h
+    exact nodeAtKids_no_internal doc.kids pos he
+  · simp at h
+  · rename_i n _
+    split at h
+    · rename_i e he
+      simp at h; subst h
+      exact recreate_no_internal S n _ _ he
+    · rename_i u hu
+      exact fromReplace_no_internal S doc pos (pos + 1) _ hdoc (recreate_slice_wf S n u _ _ hu) h
+
+/-- **node-mark and attribute steps** -/
+theorem nodeSteps_no_internal (S : Schema) (doc : Node) (pos : Nat) (hdoc : IsElem doc) :
+    (∀ m, S.apply (.addNodeMark pos m) doc ≠ .error .internal) ∧
+    (∀ m, S.apply (.removeNodeMark pos m) doc ≠ .error .internal) ∧
+    (∀ name value, S.apply (.attr pos name value) doc ≠ .error .internal) := by
+  refine ⟨fun m => ?_, fun m => ?_, fun name value => ?_⟩
+  · unfold Schema.apply
+    exact nodeStep_no_internal S doc pos hdoc (fun n => n.attrs) (fun n => m.addToSet S n.marks)
+  · unfold Schema.apply
+    exact nodeStep_no_internal S doc pos hdoc (fun n => n.attrs) (fun n => m.removeFromSet n.marks)
+  · unfold Schema.apply
+    exact nodeStep_no_internal S doc pos hdoc
+      (fun n => n.attrs.filter (·.1 != name) ++ [(name, value)]) (fun n => n.marks)
+
+/-- **document-attribute step** -/
+theorem docAttr_no_internal (S : Schema) (doc : Node) (name value : String) (hdoc : IsElem doc) :
+    S.apply (.docAttr name value) doc ≠ .error .internal := by
+  cases doc with
+  | text s m => simp [IsElem, Node.isLeaf] at hdoc
+  | leaf ty a m => simp [IsElem, Node.isLeaf] at hdoc
+  | elem ty a m kids =>
+    unfold Schema.apply
+    exact map_ne_internal (computeAttrs_no_internal _ _)
+
+/-- **C01, second sentence**: applying a step of any of the eight kinds whose payload is well-formed
+    (`StepWF`) to an element node never ends in an internal error — whatever the positions, and
+    whether or not document and payload are schema-valid or in normal form. -/
+theorem apply_no_internal (S : Schema) (st : Step) (doc : Node)
+    (hdoc : IsElem doc) (hwf : StepWF st = true) :
+    S.apply st doc ≠ .error .internal := by
+  cases st with
+  | replace f t sl s => exact replace_no_internal S doc f t sl s hdoc hwf
+  | replaceAround f t gf gt sl ins s => exact replaceAround_no_internal S doc f t gf gt sl ins s hdoc hwf
+  | addMark f t m => exact addMark_no_internal S doc f t m hdoc
+  | removeMark f t m => exact removeMark_no_internal S doc f t m hdoc
+  | addNodeMark pos m => exact (nodeSteps_no_internal S doc pos hdoc).1 m
+  | removeNodeMark pos m => exact (nodeSteps_no_internal S doc pos hdoc).2.1 m
+  | attr pos name value => exact (nodeSteps_no_internal S doc pos hdoc).2.2 name value
+  | docAttr name value => exact docAttr_no_internal S doc name value hdoc
+
+/-- both sentences of C01 together: on a valid element document, a step with a valid, well-formed
+    payload either is rejected (`failed` / `valueError`) or returns a valid document -/
+theorem apply_valid_or_rejected (S : Schema) (st : Step) (doc : Node)
+    (hd : Valid S doc) (hdoc : IsElem doc) (hp : PayloadValid S doc st) (hwf : StepWF st = true) :
+    S.apply st doc = .error .failed ∨ S.apply st doc = .error .valueError ∨
+      ∃ doc', S.apply st doc = .ok doc' ∧ Valid S doc' := by
+  cases h : S.apply st doc with
+  | ok doc' => exact .inr (.inr ⟨doc', rfl, apply_valid S st doc doc' hd hp h⟩)
+  | error e =>
+    cases e with
+    | failed => exact .inl rfl
+    | valueError => exact .inr (.inl rfl)
+    | internal => exact absurd h (apply_no_internal S st doc hdoc hwf)
+
+/-! ### The hypotheses are needed (and satisfiable)
+
+  Each hypothesis of `apply_no_internal`, dropped, admits an internal error — in the model (the
+  examples below) and in the code (`/repo`, checked by probe: every one of E1–E4 raises the class
+  noted).  Document: `doc(p("ab"), p("c"))` over `doc(para*), para(text*), text`. -/
+section Necessity
+/-- doc(para*), para(text*), text -/
+private def tinyS : Schema :=
+  { nodes := #[
+      { name := "doc", isText := false, isInline := false, isLeaf := false, isAtom := false,
+        inlineContent := false, isolating := false, defining := false, code := false,
+        dfa := #[⟨true, [(1, 0)]⟩], markSet := some [], attrs := [] },
+      { name := "para", isText := false, isInline := false, isLeaf := false, isAtom := false,
+        inlineContent := true, isolating := false, defining := false, code := false,
+        dfa := #[⟨true, [(2, 0)]⟩], markSet := none, attrs := [] },
+      { name := "text", isText := true, isInline := true, isLeaf := true, isAtom := true,
+        inlineContent := false, isolating := false, defining := false, code := false,
+        dfa := #[⟨true, []⟩], markSet := some [], attrs := [] }],
+    marks := #[], top := 0, textTy := 2 }
+
+private def tinyDoc : Node :=
+  .elem 0 [] [] [.elem 1 [] [] [.text [97, 98] []], .elem 1 [] [] [.text [99] []]]
+
+/-- E1 (`Slice.wf`, replace): an empty slice claiming one open level on the left.
+    Code: `ReplaceStep(1, 4, Slice(Fragment.empty, 1, 0))` → IndexError. -/
+example : StepWF (.replace 1 4 ⟨[], 1, 0⟩ false) = false ∧
+    tinyS.apply (.replace 1 4 ⟨[], 1, 0⟩ false) tinyDoc = .error .internal := by
+  simp [StepWF, Slice.wf, spineL, spineR, Schema.apply, Schema.fromReplace, Schema.replace, tinyDoc,
+    replaceKids, inRange, depthAt, Except.map]
+
+/-- E2 (`insert ≤ slice.size`, replace-around): the slice `<p()>` open 0/1 is well-formed and has
+    size 1; inserting the gap at 2 puts it after the paragraph, the result `<p(), "b">` open 0/1 is
+    not well-formed.  Code: `ReplaceAroundStep(0, 3, 2, 3, Slice(<p()>, 0, 1), 2)` → IndexError
+    (with `insert = 1` it returns `doc(p("b"), p("c"))`). -/
+example : (Slice.mk [.elem 1 [] [] []] 0 1).wf = true ∧
+    StepWF (.replaceAround 0 3 2 3 ⟨[.elem 1 [] [] []], 0, 1⟩ 2 false) = false ∧
+    tinyS.apply (.replaceAround 0 3 2 3 ⟨[.elem 1 [] [] []], 0, 1⟩ 2 false) tinyDoc = .error .internal := by
+  simp [StepWF, Slice.wf, Slice.size, spineL, spineR, Schema.apply, Schema.fromReplace, Schema.replace,
+    tinyDoc, Node.slice, Node.kids, sliceKids, sliceScan, sliceHere, Slice.insertAt, insertInto, flatInsert,
+    fcut, fcutLoop, cutText, splitOk, isHigh, isLow, fappend, addNode, replaceKids, inRange, depthAt,
+    Except.map]
+
+/-- E3 (`Slice.wf`, replace-around, with `insert ≤ size`): the slice `<"xy">` open 1/0.
+    Code: `ReplaceAroundStep(1, 4, 2, 3, Slice(<"xy">, 1, 0), 0)` → IndexError. -/
+example : StepWF (.replaceAround 1 4 2 3 ⟨[.text [120, 121] []], 1, 0⟩ 0 false) = false ∧
+    ((0 : Nat) : Int) ≤ (Slice.mk [.text [120, 121] []] 1 0).size ∧
+    tinyS.apply (.replaceAround 1 4 2 3 ⟨[.text [120, 121] []], 1, 0⟩ 0 false) tinyDoc = .error .internal := by
+  simp [StepWF, Slice.wf, Slice.size, spineL, spineR, Schema.apply, Schema.fromReplace, Schema.replace,
+    tinyDoc, Node.slice, Node.kids, sliceKids, sliceScan, sliceHere, Slice.insertAt, insertInto, flatInsert,
+    fcut, fcutLoop, cutText, splitOk, isHigh, isLow, fappend, addNode, replaceKids, inRange, depthAt,
+    Except.map]
+
+/-- E4 (`IsElem`): a text node as the document.
+    Code: `ReplaceStep(0, 0, Slice.empty).apply(schema.text("a"))` → TypeError. -/
+example : tinyS.apply (.replace 0 0 Slice.empty false) (.text [97] []) = .error .internal := by
+  simp [Schema.apply, Schema.fromReplace, Schema.replace]
+
+/-- the hypotheses are satisfiable non-trivially: a well-formed open slice around a gap, applied -/
+example : IsElem tinyDoc ∧ StepWF (.replaceAround 0 3 2 3 ⟨[.elem 1 [] [] []], 0, 1⟩ 1 false) = true := by
+  simp [IsElem, tinyDoc, Node.isLeaf, StepWF, Slice.wf, Slice.size, spineL, spineR]
+end Necessity
 
 end PM.C01
